@@ -121,17 +121,18 @@ _wire("C07", 40, 900,
 _wire("C17", 40, 900,
       "each run builds a SplitListener over the real listener with a tape-chosen set of sub-listeners (three specific names, __AUTH__, __UNAUTH__, each present or not, native connections on/off, GetListener sometimes called twice) and an application base TLS config in {none, no ALPN, fixed protocols, mirroring whatever the client offers}; 3-9 clients follow: authenticated nodes with extra-protocol lists (matching none / one / several registered names, the reserved names, near-misses), base-TLS clients offering tape-ordered lists that include the reserved names, registered names, near-misses and names under the certificate-preference prefix, fetch-only (unauthorized) nodes and raw garbage; finally the base listener is closed. All goroutines (split loop, one acceptor per sub-listener, clients) run under the seeded lock-aware scheduler. Non-trivial: all; distinct by (client kind, offered names, registered set, destination, negotiated protocol).",
       ["which of several matching specific sub-listeners receives an authenticated connection is not judged (sync.Map iteration order)",
-       "a 'mirroring' application base config is part of the configuration space: the statement quantifies over base-TLS clients offering arbitrary names"])
+       "a 'mirroring' application base config is part of the configuration space: the statement quantifies over base-TLS clients offering arbitrary names",
+       "GetListener has no seam inside: registration from several goroutines AT ONCE is exercised by the auxiliary free-running stress (bin/racestress C17; 8 s quick, 90 s thorough), which checks a fact load cannot disturb: a name keeps yielding the sub-listener first handed out for it"])
 _wire("C15", 45, 900,
       "each run draws a plan: 2-6 clients from {authentication with own client state and extra protocols, authorized node-led fetch+authentication, unauthorized fetch, token enrollment with distinct per-token state, rejected authentication of a removed node}, 2-4 acceptor goroutines, and the listener's option slice with tape-chosen length 0-12 and spare capacity 0-8. The plan is executed twice in fresh identical worlds: one client at a time, then all clients concurrently with every simstore call and every simnet read/write/accept as a scheduling point of the seeded scheduler (with per-run priorities for long overtakes). Also plain TLS clients served by an application base config (offering some or no ALPN; absolute oracle: reported list = offered list) and per-client connection resets applied identically in both executions. Non-trivial: every plan with >=2 clients; distinct by (client kinds, option slice shape, acceptors, schedule hash).",
       ["isolation is decided by differential execution: per client the tuple (dial result, accept result, negotiated-protocol class, ClientState, ClientNextProtos tail, node record existence and state, token consumed) must be equal in both executions; connections are attributed to clients by a unique marker protocol each client offers",
-       "literal data-race freedom is not decided by the serialising scheduler (consequences of unsynchronised sharing are); both tiers add an auxiliary free-running -race stress (bin/racestress; 8 s quick, 90 s thorough)"])
+       "literal data-race freedom is not decided by the serialising scheduler (consequences of unsynchronised sharing are); both tiers add an auxiliary free-running -race stress (bin/racestress; 8 s quick, 90 s thorough), which also checks facts load cannot disturb (a client's state reported exactly once; the record of a node that got in filed under its own key ID)"])
 META["C19"] = dict(
     engine="kv", level="exploration", quick_s=25, thorough_s=600,
     rule="two thirds of the runs are sequential histories of 5-60 Store/Load/Remove/List operations over IDs {a,b,c,current,next,roots,ab,xa,a.tmp,a~,a.bak} (path-like IDs too on the in-memory back ends) x the four message types (unique payload per store; nil, typed-nil and unknown message types interspersed) on inmem, file (per-run scratch directory) or store-once, compared step by step with a typed map model; one third are concurrent histories (2-4 clients x 3-10 operations on a two-ID, two-type key space, inmem or store-once) where each operation is one step of the seeded scheduler, invoke/return are stamped with the scheduler's event counter, and the history is checked with porcupine against the same model. Also: operations with a cancelled context (reported failure = no effect), loads into messages that already hold values, records of 4 KiB-300 KiB, restarts of the file back end (directory re-opened mid-history), and a large-population phase (255-1027 records of one type). Non-trivial: all; distinct by (back end, history length, final model state) and (clients, operations, schedule hash).",
     assumptions=COMMON_ASSUME + [
         "Remove of an absent entry may return nil or an error (the statement is silent and the back ends differ); state must be unchanged",
-        "operations are atomic scheduling steps (the back ends have no internal seam): a missing lock is invisible to the deterministic part; that clause rests on the auxiliary -race stress (bin/racestress; 8 s quick, 90 s thorough)",
+        "operations are atomic scheduling steps (the back ends have no internal seam): a missing lock is invisible to the deterministic part; that clause rests on the auxiliary -race stress (bin/racestress; 8 s quick, 90 s thorough), which also checks that every acknowledged store of a private key made during the rush is loadable and listed afterwards",
         "porcupine Unknown (timeout) is counted as inconclusive and never reported"])
 
 # instrumentation call sites the simulator relies on (file -> {text: minimum number of occurrences}); checked statically by bin/check
